@@ -52,7 +52,7 @@ func NewWorker(concurrency int) api.WorkTriggerer {
 		// return when triggering has to stop as well, so that the caller's bounded
 		// wait for in-flight iterations applies to iterations that never finish
 		select {
-		case <-workers.WaitForCompletion():
+		case <-pool.Completed():
 		case <-ctx.Done():
 		}
 	}
